@@ -60,7 +60,8 @@ structure State where
   obj   : CId → Conn := fun _ => {}
   nextC : Nat := 0
   nextS : Nat := 0
-  skey  : SId → Key := fun _ => ⟨0, false⟩
+  skey  : SId → Key := fun _ => ⟨0, false⟩   -- ghost: key a stream was created for
+  kept  : SId → Bool := fun _ => false        -- ghost: the stream's connection was stored in the map
   log   : List Ev := []
 
 def init (progs : Tid → List Op) : State := { thr := fun t => { prog := progs t } }
@@ -123,7 +124,7 @@ def stepIns (fixed : Bool) (s : State) (t : Tid) (sid : SId) : Option State :=
     | some (c2, h2) =>
       if !fixed && (s2.obj c2).key != k then some (doPanic s2 t)
       else some (setThr s2 t { th with pc := .lock c2 h2 })
-    | none => some (setThr { s2 with conns := s2.conns.set k c } t { th with pc := .lock c false })
+    | none => some (setThr { s2 with conns := s2.conns.set k c, kept := upd s2.kept sid true } t { th with pc := .lock c false })
   | _ => none
 
 /-- closeHalfConnection after `half.closed = true`: when both halves are closed,
